@@ -2417,7 +2417,7 @@ impl Prop for C16 {
     fn case_count(&self, tier: Tier) -> u64 {
         match tier {
             Tier::Quick => 400,
-            Tier::Thorough => 16000,
+            Tier::Thorough => 12000,
         }
     }
     fn fixed_cases(&self, tier: Tier) -> Vec<Case> {
